@@ -70,7 +70,11 @@ extract_default = Contract(
         Lemma("L-int", {"t": "str"},
               "is_signed_int(t) == (is_decimal(t) or (t[:1] == '-' and is_decimal(t[1:])))",
               note="a signed integer text is a decimal text, or '-' followed by one"),
+        Lemma("L-intok", {"t": "str"},
+              "not (is_decimal(t) or (t[:1] in ('-', '+') and is_decimal(t[1:]))) or py_int_ok(t)",
+              note="what the code tests before calling int() is accepted by int()"),
     ],
+    facts=[("L-intok", {"t": "text"})],
 )
 
 
@@ -93,4 +97,151 @@ def _ed_witness(case, vals, gvals):
 
 extract_default.witness = _ed_witness
 
-CONTRACTS = [extract_default]
+# as a callee of set_default_doc (removal branch): a deterministic function of the prose
+extract_default.outcomes = [
+    Outcome("removal", ("tuple", ["str", "obj"]), ["result[0] == ed_doc(line)"],
+            when="emit_default_doc == False and typ is None and default_search_announce is None and rstrip_default == True"),
+]
+
+needs_quoting = Contract(
+    "doctrans.defaults_utils:needs_quoting",
+    properties=["C17", "C08", "C02"],
+    note="only the three branches before the type string is parsed are under contract; the `ast` part is "
+         "an uninterpreted predicate nq_spec (CPython's needs_quoting in the bounded companion)",
+    cases=[
+        Case("None", {"typ": None}),
+        Case("star", {"typ": "str"}, assume=["typ.startswith('*')"]),
+        Case("str", {"typ": ("lit", "str")}),
+        Case("Optional[str]", {"typ": ("lit", "Optional[str]")}),
+    ],
+    ensures=[
+        Clause("NQ1", "result == False", when=["None", "star"]),
+        Clause("NQ2", "result == True", when=["str", "Optional[str]"]),
+    ],
+    outcomes=[Outcome("any", "bool", [
+        "not (typ is None or typ.startswith('*')) or result == False",
+        "typ not in ('str', 'Optional[str]') or result == True",
+        "typ is None or result == nq_spec(typ)",
+    ])],
+)
+
+NONESTR = "```(None)```"
+
+
+def _sdd_cases():
+    out = [Case("p=None", {"param": ("tuple", ["str", None]), "emit_default_doc": True}),
+           Case("nodoc", {"param": ("tuple", ["str", ("dict", {"default": "int"})]), "emit_default_doc": True})]
+    for emit in (True, False):
+        for dk, dspec in (("absent", None), ("int", "int"), ("str", "str"), ("None", ("lit", None)), ("NoneStr", ("lit", NONESTR))):
+            for tk, tspec in (("notyp", None), ("typ", "str")):
+                d = {"doc": "str"}
+                if dk != "absent":
+                    d["default"] = dspec
+                if tspec:
+                    d["typ"] = tspec
+                out.append(Case("emit=%s,default=%s,%s" % (emit, dk, tk),
+                                {"param": ("tuple", ["str", ("dict", d)]), "emit_default_doc": emit},
+                                assume=["len(param[1]['doc']) >= 1"] + (["param[1]['default'] != %r" % NONESTR] if dk == "str" else [])))
+    return out
+
+
+_HAS = "('Defaults' in old_param[1]['doc'] or 'defaults' in old_param[1]['doc'])"
+_EMITS = [c.name for c in _sdd_cases() if c.name.startswith("emit=True") and "absent" not in c.name]
+_ALLDOC = [c.name for c in _sdd_cases() if c.name.startswith("emit=")]
+_REM = [c.name for c in _sdd_cases() if c.name.startswith("emit=False")]
+_DOT = "(old_param[1]['doc'] if old_param[1]['doc'][-1] in ('.', ',') else old_param[1]['doc'] + '.')"
+
+
+def _rendered(dk, tk):
+    """the default as it must appear in the sentence"""
+    if dk in ("None", "NoneStr"):
+        return "'None'"
+    if dk == "int":
+        return "str(old_param[1]['default'])"
+    # str default: quoted iff the type needs quoting
+    if tk == "typ":
+        q = "(old_param[1]['default'] if len(old_param[1]['default']) == 0 or %s else '\"' + old_param[1]['default'] + '\"')" % (
+            "(old_param[1]['default'][0] == old_param[1]['default'][-1] and old_param[1]['default'][0] in ('\"', \"'\"))")
+        return "(%s if nq_spec(old_param[1]['typ']) else old_param[1]['default'])" % q
+    return "old_param[1]['default']"
+
+
+def _sdd_ensures():
+    cl = [
+        Clause("S0", "result[0] == param[0] and result[1] is param[1]", note="returns the same name and the same dict object"),
+        Clause("S1", "result[1] is None", when=["p=None"]),
+        Clause("S1b", "result[1] == old_param[1]", when=["nodoc"], note="no prose: nothing changes"),
+        Clause("S4a", "not %s or result[1]['doc'] == old_param[1]['doc']" % _HAS, when=[c for c in _ALLDOC if c.startswith("emit=True")],
+               note="an existing default sentence is never duplicated (append only when absent)"),
+        Clause("S4b", "result[1]['doc'] == old_param[1]['doc']", when=[c for c in _ALLDOC if "absent" in c and c.startswith("emit=True")],
+               note="no default: the prose is unchanged"),
+        Clause("S2", "not %s or result[1]['doc'] == ed_doc(old_param[1]['doc'])" % _HAS, when=_REM,
+               note="removal delegates to extract_default(..., emit_default_doc=False)"),
+        Clause("S2b", "%s or result[1]['doc'] == old_param[1]['doc']" % _HAS, when=_REM),
+    ]
+    for c in _EMITS:
+        _, dk, tk = c.split(",")
+        dk = dk.split("=")[1]
+        kw = "param[0].endswith('kwargs')"
+        if dk in ("None", "NoneStr"):
+            cl.append(Clause("S3[%s]" % c, "%s or %s or result[1]['doc'] == %s + ' Defaults to ' + %s" % (_HAS, kw, _DOT, _rendered(dk, tk)),
+                             when=[c], note="rendering law: prose, a full stop unless one (or a comma) is there, then the sentence"))
+            cl.append(Clause("S3k[%s]" % c, "%s or not %s or result[1]['doc'] == old_param[1]['doc']" % (_HAS, kw), when=[c],
+                             note="a **kwargs parameter with a None default gets no sentence"))
+            cl.append(Clause("S3n[%s]" % c, "%s or result[1]['default'] is None" % _HAS, when=[c]))
+        else:
+            cl.append(Clause("S3[%s]" % c, "%s or result[1]['doc'] == %s + ' Defaults to ' + %s" % (_HAS, _DOT, _rendered(dk, tk)),
+                             when=[c], note="rendering law"))
+            cl.append(Clause("S3d[%s]" % c, "result[1]['default'] == old_param[1]['default']", when=[c], note="frame: the default is untouched"))
+    return cl
+
+
+set_default_doc = Contract(
+    "doctrans.defaults_utils:set_default_doc",
+    properties=["C17", "C08", "C13"],
+    cases=_sdd_cases(),
+    use_contract_for=["doctrans.defaults_utils:needs_quoting", "doctrans.defaults_utils:extract_default"],
+    ensures=_sdd_ensures(),
+    canaries=["result[1]['doc'] == old_param[1]['doc']"],
+)
+
+
+
+def _sdd_witness(case, vals, gvals):
+    """the uninterpreted needs_quoting predicate has no preimage in a model: try types that need quoting"""
+    out = []
+    spec = case.params.get("param") or ("tuple", [case.params.get("name"), case.params.get("p")])
+    d = spec[1][1]
+    if not (isinstance(d, tuple) and d[0] == "dict" and "typ" in d[1]):
+        return out
+    for typ in ("Union[int, str]", "str", "List[str]"):
+        p = {}
+        for k, vs in d[1].items():
+            key = "param_1_%s" % k if "param" in case.params else "p_%s" % k
+            p[k] = vals.get(key) if vs in ("str", "int", "bool") else (vs[1] if isinstance(vs, tuple) and vs[0] == "lit" else vs)
+        p["typ"] = typ
+        if not p.get("doc"):
+            p["doc"] = "the x"
+        if "param" in case.params:
+            out.append({"param": ("x", p), "emit_default_doc": case.params["emit_default_doc"]})
+        else:
+            out.append({"name": "x", "p": p})
+    return out
+
+
+set_default_doc.witness = _sdd_witness
+
+sdd_idempotent = Contract(
+    "vf.contracts.laws:sdd_twice",
+    properties=["C08"],
+    note="C08.D1: applying set_default_doc twice equals applying it once (no sentence per pass)",
+    cases=[Case(c.name, {"name": c.params["param"][1][0], "p": c.params["param"][1][1]},
+                assume=["len(p['doc']) >= 1"] + (["p['default'] != %r" % NONESTR] if "default=str" in c.name else []))
+           for c in _sdd_cases() if c.name.startswith("emit=True")],
+    use_contract_for=["doctrans.defaults_utils:needs_quoting"],
+    ensures=[Clause("SL1", "result[0] == result[1]", note="second application is a no-op")],
+)
+
+sdd_idempotent.witness = _sdd_witness
+
+CONTRACTS = [extract_default, needs_quoting, set_default_doc, sdd_idempotent]
